@@ -139,7 +139,17 @@ def run(ctx):
     ctx.ob("C30.D1-validation", f"{SU}:_SuspendBandBase.__init__", ok, "" if ok else "band validation / assignment changed", where=where(f, f.node))
     t = repo.func(SU, "_Threshold.__init__")
     txt = A.norm(t.node)
-    ok = "self._suspend_thresh = suspend_thresh" in txt and "self._resume_thresh = resume_thresh" in txt and "self._validate()" in txt
+    # the resume threshold defaults to the suspend threshold when it is None (an identity test: 0 is a threshold)
+    stores_r = [s_ for s_ in A.walk_stmts(t.node.body) if isinstance(s_, ast.Assign) and A.norm(s_.targets[0]) == "self._resume_thresh"]
+    ok_r = False
+    if len(stores_r) == 1:
+        v_ = A.norm(stores_r[0].value)
+        if v_ == "resume_thresh":
+            ok_r = any(isinstance(s_, ast.If) and A.norm(s_.test) == "resume_thresh is None" and [A.norm(x) for x in A.body(s_.body)] == ["resume_thresh = suspend_thresh"]
+                       for s_ in t.node.body)
+        else:
+            ok_r = v_ in ("suspend_thresh if resume_thresh is None else resume_thresh", "resume_thresh if resume_thresh is not None else suspend_thresh")
+    ok = "self._suspend_thresh = suspend_thresh" in txt and ok_r and "self._validate()" in txt
     ctx.ob("C30.D1-validation", f"{SU}:_Threshold.__init__", ok, "" if ok else "thresholds not stored / validated", where=where(t, t.node))
     # boolean suspenders
     for cls, sus, res in (("SuspendBoolHigh", "bool(value)", "not bool(value)"), ("SuspendBoolLow", "not bool(value)", "bool(value)")):
